@@ -258,7 +258,8 @@ def _check_model(net, bounds, ruleset, stats, rich=False, origin="fresh"):
                 check_frame(case, res, [frozenset([g]) for g in genes], "gene", "moma", refd)
     # ---- essential sets
     z0f = float(z0)
-    for thr_name, thr in (("default", None), ("half", z0f / 2)):
+    # (with a threshold of zero or below, only knock-outs without any solution - or with a negative optimum - count)
+    for thr_name, thr in (("default", None), ("half", z0f / 2), ("zero", 0.0), ("negative", -1.0)):
         threshold = z0f * 1e-2 if thr is None else thr
         for fn, entity, items in ((find_essential_reactions, "reaction", ids), (find_essential_genes, "gene", genes)):
             if not items:
